@@ -22,6 +22,19 @@ def mk(a):
             'sha512_224': lambda: SHA2(512, 224), 'sha512_256': lambda: SHA2(512, 256)}[a]()
 
 
+_POOL = {}
+
+
+def reused(a):
+    """an object that has already hashed another (two-block, non byte-aligned) message: the judged call is its second call"""
+    o = mk(a)
+    try:
+        o(b'\xa5' * 150, bitlen=1197)
+    except Exception:
+        pass
+    return o
+
+
 def data(kind, n):
     return {'ramp': lambda: ramp(n, 13, n), 'exp': lambda: expander(n, 1), 'ff': lambda: b'\xff' * n,
             'zero': lambda: b'\x00' * n, 'exp2': lambda: expander(n, 2), 'exp3': lambda: expander(n, 3)}[kind]()
@@ -70,6 +83,7 @@ def run_lengths(ctx, pt):
     r = ctx.attempt(lambda: mk(a)(m, bitlen=L))
     exp = mdsha.md_hash(a, m, L)
     ctx.eq('C01/%s/bit-length-digest' % a, r, ('ok', exp))
+    ctx.eq('C01/%s/bit-length-digest/reused-object' % a, ctx.attempt(lambda: reused(a)(m, bitlen=L)), ('ok', exp))
     if L % 8 == 0:
         r2 = ctx.attempt(lambda: mk(a)(m))
         ctx.eq('C01/%s/byte-digest' % a, r2, ('ok', ref(a, m)))
@@ -94,6 +108,7 @@ def run_bytes(ctx, pt):
     ctx.shape((a,) + lenclass(a, 8 * n))
     r = ctx.attempt(lambda: mk(a)(m))
     ctx.eq('C01/%s/byte-digest' % a, r, ('ok', ref(a, m)))
+    ctx.eq('C01/%s/byte-digest/reused-object' % a, ctx.attempt(lambda: reused(a)(m)), ('ok', ref(a, m)))
     if r[0] == 'ok':
         ctx.eq('C01/%s/digest-length' % a, len(r[1]), OUTLEN[a])
     if n > 0:
